@@ -457,6 +457,12 @@ type FunctionLiteral struct {
 }
 
 func (fl FunctionLiteral) lambdaPrint(out *PrintState) *PrintState {
+	// As an operand of anything binding tighter than => (a + (x => x), !(x => x)), the lambda needs parentheses,
+	// otherwise the operator would grab the parameter.
+	wrap := out.ExpressionPrecedence > LAMBDA
+	if wrap {
+		out.Print("(")
+	}
 	needParen := len(fl.Parameters) != 1
 	if needParen {
 		out.Print("(")
@@ -471,6 +477,9 @@ func (fl FunctionLiteral) lambdaPrint(out *PrintState) *PrintState {
 		out.Print(" => ")
 	}
 	fl.Body.PrettyPrint(out)
+	if wrap {
+		out.Print(")")
+	}
 	return out
 }
 
